@@ -36,7 +36,7 @@ check(
     "C10",
     "fault_enumeration",
     "Seeded sampling of crash points and crash sequences: every run executes the real MD engine, HDF5/XYZ writers and checkpoint code under a simulator-owned I/O seam; 1-3 crashes per run (hard kill at a low-level I/O event incl. torn writes, hard kill at a Python line event, exception unwinding, ENOSPC on the checkpoint path, crashes inside resume initialisation) with resume after each; the final files must equal those of the uninterrupted run exactly and the checkpoint on disk must load after every crash. Sampling, not exhaustive: a clean batch is evidence, not proof.",
-    "Crash = process death (page cache survives). HDF5 low-level driver substituted by h5py's file-object driver so that each pwrite is an event. Electronic structure is a stub for most runs (real SEQM in a stated fraction). The HDF5 torn-flush window is a committed known finding and is matched by crash site, not by property id.",
+    "Crash = process death (page cache survives). HDF5 low-level driver substituted by h5py's file-object driver so that each pwrite is an event. Engines: BOMD, Langevin, XL-BOMD k=3..9, damped XL, KSA, excited-state BOMD / XL-BOMD / XL-ESMD (stub with synthetic amplitudes and transition densities, and real), surface hopping (model engine and three pinned production runs), UHF BOMD/Langevin on the real driver; options incl. write_mo, transition properties, transition-density cadence. Electronic structure is a stub for most runs (real SEQM in a stated fraction). The HDF5 torn-flush window is a committed known finding and is matched by crash site, not by property id.",
     "deterministic simulation: seeded crash/fault schedules over an I/O-event and line-event clock, fork-per-incarnation, exact comparison with a fault-free reference run",
     "mdsim",
     "DESIGN.md section 5 (C10)",
@@ -45,8 +45,8 @@ check(
 check(
     "C11",
     "exploration",
-    "Seeded exploration of the product lattice of cadences (data, coordinates, velocities, forces, nonadiabatic, XYZ, screen, checkpoint; values 0, 1..11, = run length, > run length) x run length x molecule-id subsets (incl. empty) x engines x 0-2 crash+resume points. Each configuration is run by the real engines; every stream's labels are compared with a small executable reference model (initial snapshot + multiples of its own cadence, nothing else, absent when 0) and every stored row is compared exactly with the row of the same label in a dense (all cadences = 1) twin run of the same seed.",
-    "Assumes output cadences must not influence the dynamics (exact equality with the dense twin). Transition-density stream not checked (outside the statement). Stub electronic structure except a stated real-driver fraction that supplies the nonadiabatic stream.",
+    "Seeded exploration of the product lattice of cadences (data, coordinates, velocities, forces, nonadiabatic, transition densities, XYZ, screen, checkpoint; values 0, 1..11, = run length, > run length) x run length x molecule-id subsets (incl. empty) x engines x 0-2 crash+resume points. Each configuration is run by the real engines; every stream's labels are compared with a small executable reference model (initial snapshot + multiples of its own cadence, nothing else, absent when 0) and every stored row is compared exactly with the row of the same label in a dense (all cadences = 1) twin run of the same seed; every XYZ frame (coordinates and comment line with E_total) equals the dense twin's frame of the same step.",
+    "Assumes output cadences must not influence the dynamics (exact equality with the dense twin). The transition-density stream (documented own cadence) is checked like the listed ones. Stub electronic structure (incl. synthetic excited-state outputs and the model surface-hopping engine) except a stated real-driver fraction.",
     "deterministic simulation: append-only output logs over simulated time (also across resumed incarnations) checked against a reference model and a dense twin run",
     "mdsim",
     "DESIGN.md section 5 (C11)",
@@ -55,7 +55,7 @@ check(
 check(
     "C13",
     "exploration",
-    "Seeded histories of prior RNG consumption, seeds, temperatures (incl. 0 K), COM-removal modes and strides, user velocity fields, padded batches and all ground-state engines; _zero_com, initialize_velocity and the integrator step are wrapped so that every application is observed. Exact oracles: same seed => bit-identical files whatever was drawn before; seed+1 => different velocities; step-0 temperature = target (1e-10) under the documented degrees of freedom; P (and L when requested) vanish and kinetic energy is restored after every removal; padding atoms never move; user velocities are the step-0 row.",
+    "Seeded histories of prior RNG consumption, seeds, temperatures (incl. 0 K), COM-removal modes and strides, user velocity fields, padded batches and all engines (ground state, excited-state BOMD/XL-BOMD/XL-ESMD, model and production surface hopping); _zero_com, initialize_velocity and the integrator step are wrapped so that every application is observed. Exact oracles: same seed => bit-identical files whatever was drawn before; seed+1 => different velocities; step-0 temperature = target (1e-10) under the documented degrees of freedom; P (and L when requested) vanish and kinetic energy is restored after every removal; padding atoms never move; user velocities are the step-0 row; the velocities at entry of the first integrator step equal the step-0 row bit for bit.",
     "Configurations the library refuses loudly (n_dof <= 0, COM removal at rest) are outside the domain; linear molecules are never combined with angular removal (manual: not auto-detected).",
     "deterministic simulation: simulator-owned random stream (prior-draw histories, seeds) and per-application invariants observed through method wrapping",
     "mdsim",
@@ -65,8 +65,8 @@ check(
 check(
     "C08",
     "exploration",
-    "Seeded FAMILIES of NVE runs from one phase-space point on the real integrator: dt, dt/2, dt/4 (trajectory-error and energy-fluctuation ratios must be 4 within a frozen window), forward / velocity reversal / backward (must retrace), and variants that must not change the trajectory (density reuse off, periodic COM removal from a P=L=0 state, crash+resume in the middle). Momenta are observed at every step through a wrapper; the HDF5 history is checked row by row (Ek, T, Ep, forces are those of the positions/velocities written for the same step) and against an independent NumPy velocity-Verlet with its own CODATA unit conversions.",
-    "Stub potential (exact forces known) decides order/reversibility/conservation; real SEQM families (randomly rotated, eps 1e-10) check ratios, drift, reversibility. The axis-aligned real start geometry is a committed known finding matched by driver=real AND unrotated geometry. Runs of 40-130 steps: ps-scale drift not reached.",
+    "Seeded FAMILIES of NVE runs from one phase-space point on the real integrator: dt, dt/2, dt/4 (trajectory-error and energy-fluctuation ratios must be 4 within a frozen window), forward / velocity reversal / backward (must retrace), and variants that must not change the trajectory (density reuse off, periodic COM removal from a P=L=0 state, crash+resume in the middle, a reused driver object, output cadences that are not multiples of one another). Momenta are observed at every step through a wrapper; the HDF5 history is checked row by row (Ek, T, Ep, forces are those of the positions/velocities written for the same step) and against an independent NumPy velocity-Verlet with its own CODATA unit conversions.",
+    "Stub potential (exact forces known) decides order/reversibility/conservation; real SEQM families (randomly rotated, eps 1e-10) check ratios, drift, reversibility. The axis-aligned real start geometry is a committed known finding matched by driver=real AND unrotated geometry. One pinned excited-state history (overlap series switch crossed exactly at a step) guards fix d7687a5. Runs of 40-130 steps: ps-scale drift not reached.",
     "deterministic simulation: seeded run families (dt-halving, velocity reversal, crash+resume) of the real MD engine, per-step invariants through method wrapping, history oracles against an independent reference integrator",
     "mdsim",
     "DESIGN.md section 5 (C08)",
@@ -75,8 +75,8 @@ check(
 check(
     "C09",
     "exploration",
-    "Four layers on the real XL_BOMD/KSA_XL_BOMD objects. Recurrence: the real integrator step (real coefficient window and history-slot arithmetic) driven with synthetic densities on a frozen geometry; fixed point to round-off and bounded, non-growing response to a perturbation injected at every buffer phase, for every k in 3..9, every phase, a gamma grid and both variants - the k x phase space is enumerated completely in every run. Restart: crash+resume at every buffer phase must continue exactly (density made visible in the files). Consistency: real SEQM, XL energy/forces at P = converged D equal the SCF ones (plain, Krylov rank 1-4, T_el). Scaling: real SEQM shadow-energy fluctuation ~ dt^2, no drift, convergence to the BOMD trajectory.",
-    "Stability is sampled over a response grid (not a root-locus proof). Frozen bounds: amplification <= 2, growth <= 1.05, fixed point 1e-12. Excited-state XL-BOMD only at smoke level (C10 real stratum).",
+    "Four layers on the real XL_BOMD/KSA_XL_BOMD objects. Recurrence: the real integrator step (real coefficient window and history-slot arithmetic) driven with synthetic densities on a frozen geometry; fixed point to round-off and bounded, non-growing response to a perturbation injected at every buffer phase, for every k in 3..9, every phase, a gamma grid and both variants - the k x phase space is enumerated completely in every run. Restart: crash+resume at every buffer phase must continue exactly (density and transition-density history made visible in the files; plain, Krylov, damped, excited-state XL-BOMD and XL-ESMD). Reuse: a driver object used before starts its second run like a new one. Consistency: real SEQM, XL energy/forces at P = converged D equal the SCF ones (plain, Krylov rank 1-4, T_el <= 1500 K) and do not depend on zero-padded batch mates (T_el up to 8000 K). Scaling: real SEQM shadow-energy fluctuation ~ dt^2, no drift, convergence to the BOMD trajectory (ground state; XL-ESMD and excited-state XL-BOMD against excited-state BOMD).",
+    "Stability is sampled over a response grid (not a root-locus proof). Frozen bounds: amplification <= 2, growth <= 1.05, fixed point 1e-12. Above 1500 K thermal occupations legitimately move the XL energy off the zero-temperature SCF one; only batch independence is decided there.",
     "deterministic simulation: real XL-BOMD step driven by a stub density response over the complete k x buffer-phase grid, crash/restart at every phase, plus seeded real-driver families",
     "mdsim",
     "DESIGN.md section 5 (C09)",
@@ -85,7 +85,7 @@ check(
 check(
     "C12",
     "exploration",
-    "The simulator owns the random stream: a recording proxy for torch.randn_like captures the noise of EVERY thermostat application and a wrapper captures velocities before/after, so the fluctuation-dissipation update v' = c1 v + c2 xi is checked exactly (1e-6, independent CODATA constants) over dt/tau in 1e-4..10, T in 0..2000 K, masses H..Cl, padded batches, Langevin BOMD, damped XL-BOMD/KSA and surface hopping; also the schedule (two half-step applications around the force evaluation, first and last operation of the step), the invariance identity on the engine's own tensors, the limits (tau=inf equals NVE bit for bit, deviation ~ tau^-1/2, T=0 only removes energy) and a deliberately coarse end-to-end mean temperature on exactly solvable stub systems.",
+    "The simulator owns the random stream: a recording proxy for torch.randn_like captures the noise of EVERY thermostat application and a wrapper captures velocities before/after, so the fluctuation-dissipation update v' = c1 v + c2 xi is checked exactly (1e-6, independent CODATA constants) over dt/tau in 1e-4..10, T in 0..2000 K, masses H..Cl, padded batches, Langevin BOMD, damped XL-BOMD/KSA/XL-ESMD, model and production surface hopping, reused thermostat objects; also the schedule (two half-step applications around the force evaluation, first and last operation of the step), the invariance identity on the engine's own tensors, the limits (tau=inf equals NVE bit for bit, deviation ~ tau^-1/2, T=0 only removes energy) and a deliberately coarse end-to-end mean temperature on exactly solvable stub systems.",
     "The statistical layer is coarse by design (max(3%, 6 sigma)); the exact layers decide the identity. Configurational sampling accuracy on anharmonic real surfaces is not reached.",
     "deterministic simulation: simulator-owned RNG (recording proxy) turns the statistical statement into an exact per-application check; seeded (dt, tau, T, mass, engine) exploration",
     "mdsim",
@@ -95,7 +95,7 @@ check(
 check(
     "C15",
     "exploration",
-    "One process as a shared-state machine: seeded call histories (2-8 operations) over a pool of ~45 heterogeneous public-API jobs (single points over methods/solvers/spin/charge, CIS/RPA, differentiable jobs split into forward and backward phases, short MD runs of four engines, steepest descent, jobs the library rejects), with generated reuse of Constants / settings dictionary / driver and MD-driver objects, interleaved and summed backward passes, call-boundary aborts, prior RNG use and thread counts. Every job is compared with the same job run as the first and only thing in a fresh process: bit for bit at one thread, 1e-9 across thread counts; success/failure parity.",
+    "One process as a shared-state machine: seeded call histories (2-8 operations) over a pool of ~55 heterogeneous public-API jobs (single points over methods/solvers/spin/charge, CIS/RPA, differentiable jobs split into forward and backward phases, short MD runs of six engines incl. XL-ESMD, steepest descent, PM6 d-element and learned-parameter jobs, single-precision jobs incl. a stratum whose FIRST calculation is single precision, jobs the library rejects), with generated reuse of Constants / settings dictionary / driver and MD-driver objects, interleaved and summed backward passes, call-boundary aborts, prior RNG use and thread counts. Every job is compared with the same job run as the first and only thing in a fresh process: bit for bit at one thread, 1e-9 across thread counts; success/failure parity.",
     "Sequential callers only (the statement speaks of compute threads, not caller threads). A driver is reused only for molecules whose elements it was built for. The native intra-op pool's own schedule is not controlled.",
     "deterministic simulation: seeded schedules of API calls (interleavings of forward/backward phases, object reuse, injected aborts) against a fresh-process reference model",
     "histsim",
